@@ -440,28 +440,48 @@ def r6_rejection(ctx):
     for qn, sites in want.items():
         paths = ctx.paths(qn)
         raising = [p for p in paths if p.exit == "raise"]
+        guards = [p.conds[-1][0] for p in raising if p.conds]
+        # a rejection counts as gone only when every raising guard of the function is recognised as one of the *other* rejections; a guard
+        # in a form none of the tests recognises could be this one written differently, and leaves the question open
+        unidentified = [g for g in guards if not any(pr(g) for _nm, pr in sites)]
         for name, pred in sites:
-            ok = any(p.conds and pred(p.conds[-1][0]) for p in raising)
-            ctx.check("R6", "%s|raises|%s" % (qn, name), True if ok else False,
+            ok = any(pred(g) for g in guards)
+            ctx.check("R6", "%s|raises|%s" % (qn, name), True if ok else (None if unidentified else False),
                       "a raising path is guarded by the %s inconsistency test" % name,
                       bad="no raising path guarded by the %s test: inconsistent input is no longer rejected here" % name, fn=qn)
     # both-or-neither guards
     for qn, a, b in (("verde.coordinates.grid_coordinates", "shape", "spacing"), ("verde.coordinates.line_coordinates", "size", "spacing")):
         paths = ctx.paths(qn)
-        both = neither = False
+        both = neither = None
+        mentions = lambda p, nm: any(("param", nm) in Q.leaves(c) for c, _v in p.conds)
         for p in paths:
-            if p.exit != "raise":
+            na = _none_state(p, a)
+            nb = _none_state(p, b)
+            if p.exit == "raise":
+                if na is False and nb is False:
+                    both = True
+                if na is True and nb is True:
+                    neither = True
+        # the rejection is gone only on positive evidence: a normal path on which both (neither) are decided given (missing), or on which one
+        # is decided and the other is never looked at; a guard written in a form the decisions do not resolve (flags in a tuple, a count of
+        # given arguments) leaves the question open
+        for p in paths:
+            if not p.normal:
                 continue
             na = _none_state(p, a)
             nb = _none_state(p, b)
-            if na is False and nb is False:
-                both = True
-            if na is True and nb is True:
-                neither = True
+            for x, y, nx, ny in ((a, b, na, nb), (b, a, nb, na)):
+                if both is None and nx is False and (ny is False or not mentions(p, y)):
+                    both = False
+                if neither is None and nx is True and (ny is True or not mentions(p, y)):
+                    neither = False
+        if not any(mentions(p, a) or mentions(p, b) for p in paths):
+            both = False if both is None else both
+            neither = False if neither is None else neither
         ctx.check("R6", "%s|rejects-both|%s,%s" % (qn, a, b), both, "a path raises when both %s and %s are given" % (a, b),
-                  bad="no raising path for both %s and %s given" % (a, b), fn=qn)
+                  bad="both %s and %s given reach a normal return" % (a, b), fn=qn)
         ctx.check("R6", "%s|rejects-neither|%s,%s" % (qn, a, b), neither, "a path raises when neither %s nor %s is given" % (a, b),
-                  bad="no raising path for neither %s nor %s given" % (a, b), fn=qn)
+                  bad="neither %s nor %s given reaches a normal return" % (a, b), fn=qn)
         # the guards come before the generator
         gen = "verde.coordinates.line_coordinates" if qn.endswith("grid_coordinates") else "numpy.linspace"
         late = False
